@@ -187,8 +187,8 @@ def object_path_to_raw_values(path):
     """
     Converts the given ObjectPath instance to a list of strings and ints.
     All property names become strings, regardless of whether they're *_ref
-    properties; "*" index steps become that string; and numeric index steps
-    become integers.
+    properties; "*" index steps become -1; and numeric index steps become
+    integers.
 
     Args:
         path: An ObjectPath instance
@@ -201,7 +201,11 @@ def object_path_to_raw_values(path):
         if isinstance(comp, ListObjectPathComponent):
             yield comp.property_name
 
-            if comp.index == "*" or isinstance(comp.index, int):
+            if comp.index == "*":
+                # (not the string: a property can be named "*" as well.
+                # Numeric indices are never negative.)
+                yield -1
+            elif isinstance(comp.index, int):
                 yield comp.index
             else:
                 # in case the index is a stringified int; convert to an actual
